@@ -738,14 +738,36 @@ func outerParamOf(fv *ssa.FreeVar) *Term {
 				return nil
 			}
 			sv := singleAssigned(a)
-			if p, ok := sv.(*ssa.Parameter); ok {
-				for i, pp := range parent.Params {
-					if pp == p {
-						return mk("oparam", fmt.Sprintf("%d", i), fv)
-					}
-				}
+			return outerValueTerm(sv, parent, fv, 0)
+		}
+	}
+	return nil
+}
+
+// outerValueTerm: the value a captured, never-reassigned variable was given in the enclosing function, when that is a
+// parameter of the enclosing function or a field read off one (`stats := s.summaryStatistics`): oparam:<i> / field chain.
+func outerValueTerm(sv ssa.Value, parent *ssa.Function, fv *ssa.FreeVar, depth int) *Term {
+	if sv == nil || depth > 4 {
+		return nil
+	}
+	switch v := sv.(type) {
+	case *ssa.Parameter:
+		for i, pp := range parent.Params {
+			if pp == v {
+				return mk("oparam", fmt.Sprintf("%d", i), fv)
 			}
+		}
+	case *ssa.UnOp:
+		if v.Op != token.MUL {
 			return nil
+		}
+		switch x := v.X.(type) {
+		case *ssa.FieldAddr:
+			if base := outerValueTerm(x.X, parent, fv, depth+1); base != nil {
+				return mk("field", fieldName(x.X.Type(), x.Field), nil, base)
+			}
+		case *ssa.Alloc:
+			return outerValueTerm(singleAssigned(x), parent, fv, depth+1)
 		}
 	}
 	return nil
